@@ -34,7 +34,7 @@ ASSUMPTIONS = [
     'values are None, small ints, lists of ints and tuples of (distinct) lists of ints — one level of nesting, so that copy.deepcopy and a shallow copy differ; Parameter types Parameter / Integer / Selector(list-declared objects); '
     'subclasses add new names only (an inherited Parameter is overridden only by class-level assignment)',
     'ListSelector, names-declared Selectors, watchers, references (except: one constructor keyword per instance may be a '
-    'reference without a value, which assigns nothing), disable_instance_params, readonly, set-before-super().__init__ '
+    'reference without a value, which assigns nothing), disable_instance_params, set-before-super().__init__ '
     'and assignment of `.default`/`.per_instance`/`.instantiate` on a Parameter are outside the model',
 ]
 RULE = ('directed prefix (every operation kind, order dependence of the first `obj.param.x`, copy-on-write, the constructor '
@@ -53,7 +53,7 @@ COVERAGE_TARGETS = [
     'slotSet:inst:precedence:ok', 'slotSet:cls:boundsList:ok', 'slotSet:cls:objects:ok', 'slotSet:cls:constant:ok',
     'slotMut:inst:objectsAppend:ok', 'slotMut:inst:namesInsert:ok', 'slotMut:inst:boundsSetHi:ok', 'slotMut:inst:boundsSetHi:TypeError',
     'slotMut:cls:objectsAppend:ok', 'slotMut:cls:namesInsert:ok', 'slotMut:cls:boundsSetHi:ok', 'slotSet:inst:objects:AttributeError',
-    'mutItem:inst:ok', 'mutItem:cls:ok', 'decl:tuple-of-lists:inst=1', 'decl:tuple-of-lists:inst=0',
+    'decl:readonly', 'setVal:cls:copy-on-write:TypeError', 'setVal:cls:own:TypeError', 'mkInst:kwargs:TypeError', 'mutItem:inst:ok', 'mutItem:cls:ok', 'decl:tuple-of-lists:inst=1', 'decl:tuple-of-lists:inst=0',
     'leaky-ctor-kwarg', 'skipped:no-instance', 'mkInst:pending-ref:ok', 'sharedFail:ok', 'decl:tagged-parameter-subclass', 'decl:refs:pi=0', 'decl:container-subclass', 'class:falsy-instances', 'setVal:via-update',
 ]
 
@@ -112,6 +112,8 @@ def _mk_param(param, d):
     kw = {'instantiate': d['inst'], 'constant': d['const'], 'per_instance': d['pi']}
     if d.get('refs'):
         kw['allow_refs'] = True
+    if d.get('ro'):
+        kw['readonly'] = True
     default = _lit(d['default'])
     if d['kind'] == 'plain':
         if d.get('tags') is not None:
@@ -187,7 +189,7 @@ class _World:
             ms.append(['tags', {'c': self.cid(p.tags), 'v': list(p.tags)}])
         return {'kind': kind, 'owner': self.owner(p.owner), 'default': self.val(p.default), 'inst': bool(p.instantiate),
                 'const': bool(p.constant), 'pi': bool(p.per_instance), 'cos': bool(getattr(p, 'check_on_set', False)),
-                'refs': bool(p.allow_refs),
+                'refs': bool(p.allow_refs), 'ro': bool(p.readonly),
                 'prec': p.precedence, 'btup': btup, 'ms': ms}
 
     def names_of(self, K):
@@ -199,11 +201,9 @@ class _World:
         for K in self.classes:
             row = []
             for x in self.names_of(K):
-                p = K.param[f'p{x}']
-                q = next(c.__dict__[f'p{x}'] for c in K.__mro__ if isinstance(c.__dict__.get(f'p{x}'), param.Parameter))
-                if p is not q:
-                    raise RuntimeError(f'{K.__name__}.param[p{x}] is not the Parameter found along the MRO')
-                row.append([x, self.pobj(p)])
+                # what the class sees is what its `.param` namespace serves (C13 checks that this is the Parameter found
+                # along the MRO; here a disagreement shows as an instance not reading the class default it should follow)
+                row.append([x, self.pobj(K.param[f'p{x}'])])
             classes.append(row)
         insts = []
         for I in self.insts:
@@ -513,6 +513,21 @@ def directed_nested():
            mutI(I(0), 0, 1, 5), mutI(I(1), 1, 0, 6), mutI(C(0), 1, 1, 7), acc(0, 0), mutI(I(0), 0, 0, 8), mkInst(0), setV(C(0), 0, TUP([9], [9])), mkInst(0)]
 
 
+def directed_readonly():
+    # read-only Parameters: every assignment raises TypeError — after validation, which may already have appended to a
+    # Selector's objects; a class that only inherits the Parameter goes on inheriting it (the copy made for the assignment is
+    # removed whatever the exception type)
+    yield [mkClass([], [dict(D(0, 'number', 5, blist=[0, 10]), ro=True), dict(D(1, 'selector', 1, objects=[1, 2]), ro=True),
+                        dict(D(2, 'plain', [1]), ro=True), D(3, 'number', 2)]), mkClass([0], []), mkInst(0), mkInst(1),
+           setV(C(1), 0, 7), setV(C(0), 0, 8), mkInst(1), setV(C(0), 3, 4), setV(I(0), 0, 3), setV(I(1), 1, 9), setV(C(1), 1, 8), setV(C(0), 1, 7),
+           mkInst(1, [(0, 3)]), mkInst(0, [(1, 5)]), setV(C(1), 2, [3]), mutV(I(0), 2, 4), sset(I(0), 0, constant=False), setV(I(0), 0, 4),
+           acc(1, 0), setV(C(1), 0, 99), smut(C(0), 0, boundsSetHi=20), setV(I(1), 0, 15), mkInst(1), sset(C(1), 2, constant=False), setV(C(1), 2, 5)]
+    # the object a constant parameter "holds" is what the attribute reads: after the class default changed, an instance that
+    # never set it holds the NEW default — not the snapshot in its own Parameter copy
+    yield BASE + [mkInst(0), mkInst(1), acc(0, 0), sset(I(0), 0, constant=True), sset(I(1), 0, constant=True), setV(C(0), 0, 7), setV(I(0), 0, 7),
+                  setV(I(0), 0, 5), setV(I(1), 0, 5), setV(I(1), 0, 7), setV(C(1), 0, 3), setV(I(1), 0, 3), setV(I(0), 0, 3), acc(1, 0)]
+
+
 def _alphabet():
     ops = []
     for t in (I(0), I(1), C(0), C(1)):
@@ -534,6 +549,8 @@ def _rand_decl(rng, name):
     kind = rng.choice(KINDS)
     pi = rng.random() < 0.85
     const = rng.random() < 0.2
+    if rng.random() < 0.07:
+        return dict(_rand_decl(rng, name), ro=True)
     if kind == 'plain' and rng.random() < 0.15:
         # a tuple of two lists; such a parameter holds 2-tuples of lists throughout the case
         return dict(D(name, kind, _tuple_lit(rng), inst=rng.random() < 0.6, const=const, pi=pi), tupd=True)
@@ -660,6 +677,8 @@ def cases(rng, tier, worker, nworkers):
             yield {'ops': [dict(o) for o in ops]}
         for ops in directed_nested():
             yield {'ops': [dict(o) for o in ops]}
+        for ops in directed_readonly():
+            yield {'ops': [dict(o) for o in ops]}
     pre = BASE + [mkInst(0), mkInst(1)]
     alpha = _alphabet()
     depth = 2 if tier == 'quick' else 3
@@ -720,6 +739,8 @@ def tags(case, impl):
                         t.append('decl:container-subclass')
                     if d.get('refs') and not d['pi']:
                         t.append('decl:refs:pi=0')
+                    if d.get('ro'):
+                        t.append('decl:readonly')
                     if isinstance(d['default'], dict):
                         t.append(f'decl:tuple-of-lists:inst={int(d["inst"])}')
                     if d['default'] is None:
